@@ -197,7 +197,7 @@ fn with_streams(tree: BoxedStrategy<Spec>) -> BoxedStrategy<Case> {
                 cfg = cfg.positive();
             }
             let total = 6 * n + 24;
-            (gen::stream(cfg.len(0, total)), gen::stream(cfg.len(0, 3 * n + 8)), 0usize..=total).prop_map(move |(xs, ys, p)| {
+            (gen::stream_nz(cfg.len(0, total)), gen::stream(cfg.len(0, 3 * n + 8)), 0usize..=total).prop_map(move |(xs, ys, p)| {
                 let p = p * (xs.len() + 1) / (total + 1);
                 Case { spec: Some(spec.clone()), xs, ys, ints: vec![scalar, p as i64, pattern as i64], a: Rat(1, 1), ..Default::default() }
             })
